@@ -49,7 +49,9 @@ func inGap(r, off float64) bool {
 	return c1 != r && math.Min(r, c1) <= off && off < math.Max(r, c1)
 }
 
-func fb(f float64) string { return gallina.FloatBits(f) }
+func fb(f float64) string { return strconv.FormatUint(math.Float64bits(f), 10) }
+
+func zi(v int) string { return strconv.Itoa(v) }
 
 func fstr(f float64) string { return strconv.FormatFloat(f, 'g', -1, 64) }
 
@@ -195,11 +197,19 @@ type qres struct {
 	ids []int64
 }
 
+func zlist(vs []int64) string {
+	it := make([]string, len(vs))
+	for i, v := range vs {
+		it[i] = strconv.FormatInt(v, 10)
+	}
+	return gallina.List(it)
+}
+
 func (q qres) gallina() string {
 	if q.err {
 		return "QErr"
 	}
-	return "(QSel " + gallina.ListZ(q.ids) + ")"
+	return "(QSel " + zlist(q.ids) + ")"
 }
 
 func (e *env) instant(qs string, ts time.Time, idOf map[string]int64) (qres, string) {
@@ -318,7 +328,7 @@ func main() {
 	f := gallina.ParseFlags()
 	meta := gallina.NewMeta("C34", f.Seed, f.Tier)
 	meta.Rule = "corpus (finding reproducers first) + seeded pairs (r, offset, r2) with r of 9 kinds (dyadic, decimal, uniform, hash/2^64, tiny, subnormal, near 1, upper half, fixed) and the offset at/around r and fl(1+fl(r-1)) (+-3 ulp, inside the gap, 2^-64 grid neighbours, 0, 1) + out-of-domain pairs (negative, >1, NaN, Inf: correspondence only) + real label sets (Hash/SampleOffset) + limit_ratio queries through the engine on generated vectors with r at/next to a real series offset; non-trivial = pair whose offset is within 4 ulp of r or of fl(1+fl(r-1)) or inside the gap, or query in which both the selected and the unselected set are non-empty; distinct by (r, off, r2) bit patterns resp. by query case"
-	cf := &gallina.CaseFile{Dir: f.Out, Type: "case", PerShard: 6000,
+	cf := &gallina.CaseFile{Dir: f.Out, Type: "case", PerShard: 450,
 		Preamble: "From Coq Require Import List ZArith Bool.\nFrom Verif Require Import model.LimitRatio corr.CorrC34.\nImport ListNotations.\nOpen Scope Z_scope.\n",
 		Footer:   gallina.StdFooter}
 	id := 0
@@ -335,7 +345,7 @@ func main() {
 		sc := sampler.AddRatioSampleWithOffset(c, off)
 		sr2 := sampler.AddRatioSampleWithOffset(r2, off)
 		shape := pairShape(r, off, r2, sr, sc, sr2)
-		cf.Add(fmt.Sprintf("CPair %s %s %s %s %s %s %s %s", gallina.Z(int64(id)), fb(r), fb(off), fb(c), fb(r2),
+		cf.Add(fmt.Sprintf("CPair %s %s %s %s %s %s %s %s", zi(id), fb(r), fb(off), fb(c), fb(r2),
 			gallina.Bool(sr), gallina.Bool(sc), gallina.Bool(sr2)))
 		meta.Case(id, pairDesc{Kind: "pair/" + kind, R: fstr(r), Off: fstr(off), C: fstr(c), R2: fstr(r2), Sel: [3]bool{sr, sc, sr2}, Shape: shape, Corpus: corpus})
 		meta.Evaluations++
@@ -379,7 +389,7 @@ func main() {
 	emitPair("corpus", 0x1p-60, 0x1p-61, 0x1p-59, "tiny r: offset below r is selected by both")
 
 	// ---- seeded pairs ----
-	n := f.Count(5000, 150000)
+	n := f.Count(2600, 100000)
 	for i := 0; i < n; i++ {
 		g := gen.Fork(f.Seed, i)
 		r, kind := genRatio(g)
@@ -389,7 +399,7 @@ func main() {
 	}
 	// ---- out-of-domain pairs: correspondence only ----
 	specials := []float64{math.NaN(), math.Inf(1), math.Inf(-1), -1, -0.5, -0.1, -0.9, -1.5, 1.5, 2, -2, ulps(1, 1), ulps(-1, -1), -math.SmallestNonzeroFloat64, math.MaxFloat64}
-	n2 := f.Count(600, 10000)
+	n2 := f.Count(300, 8000)
 	for i := 0; i < n2; i++ {
 		g := gen.Fork(f.Seed^0x5151, i)
 		var r float64
@@ -421,7 +431,7 @@ func main() {
 	}
 
 	// ---- real label sets: labels.Hash() and SampleOffset ----
-	nh := f.Count(800, 20000)
+	nh := f.Count(400, 15000)
 	hiHash := 0
 	for i := 0; i < nh; i++ {
 		g := gen.Fork(f.Seed^0xA5A5, i)
@@ -436,7 +446,7 @@ func main() {
 		if h >= 1<<63 {
 			hiHash++
 		}
-		cf.Add(fmt.Sprintf("CHash %s %s %s", gallina.Z(int64(id)), gallina.ZU(h), fb(off)))
+		cf.Add(fmt.Sprintf("CHash %s %d %s", zi(id), h, fb(off)))
 		meta.Case(id, map[string]string{"kind": "hash", "labels": ls.String(), "hash": strconv.FormatUint(h, 10), "off": fstr(off), "shape": "hash"})
 		meta.Evaluations++
 		meta.Hit("hash")
@@ -466,9 +476,10 @@ func main() {
 	t0 := time.Unix(0, 0)
 	t1 := time.Unix(60, 0)
 
+	nqEmitted := 0
 	runQuery := func(qi int, g *gen.Rand, mode string, corpus string) {
-		metric := fmt.Sprintf("c%d_%s", qi, mode)
-		ns := g.Intn(38) + 3
+		metric := fmt.Sprintf("c%d_%s", qi, strings.ReplaceAll(mode, "-", "_"))
+		ns := g.Intn(22) + 3
 		if mode == "corpus" {
 			ns = 24
 		}
@@ -680,20 +691,24 @@ func main() {
 		rows := make([]string, len(sers))
 		d := queryDesc{Kind: "query/" + mode, Metric: metric, R: fstr(r), C: fstr(c), R2: fstr(r2), SelR: oR.ids, SelC: oC.ids, Errs: errs, Shape: shape, Corpus: corpus}
 		for k, s := range sers {
-			rows[k] = fmt.Sprintf("mkRow %d %s %s", k, gallina.ZU(s.h), fb(s.off))
+			rows[k] = fmt.Sprintf("mkRow %d %d %s", k, s.h, fb(s.off))
 			d.Series = append(d.Series, s.ls.String())
 			d.Offsets = append(d.Offsets, fstr(s.off))
 		}
 		vs := make([]string, len(vars))
 		for k, v := range vars {
-			vs[k] = fmt.Sprintf("mkVar %s %s", gallina.ListZ(v.sub), v.obs.gallina())
+			vs[k] = fmt.Sprintf("mkVar %s %s", zlist(v.sub), v.obs.gallina())
 		}
-		cf.Add(fmt.Sprintf("CQuery %s %s %s %s\n  %s\n  %s %s %s\n  %s", gallina.Z(int64(id)), fb(r), fb(c), fb(r2),
+		cf.Add(fmt.Sprintf("CQuery %s %s %s %s\n  %s\n  %s %s %s\n  %s", zi(id), fb(r), fb(c), fb(r2),
 			gallina.List(rows), oR.gallina(), oC.gallina(), oR2.gallina(), gallina.List(vs)))
 		meta.Case(id, d)
 		meta.Evaluations++
 		meta.Hit("query/" + mode)
 		meta.Hit("query-shape/" + shape)
+		nqEmitted++
+		if nqEmitted%25 == 0 {
+			cf.Flush()
+		}
 		if !oR.err && len(oR.ids) > 0 && len(oR.ids) < len(sers) {
 			meta.Nontrivial++
 			meta.Hit("query-both-sides-nonempty")
@@ -704,7 +719,7 @@ func main() {
 	// corpus queries: the finding through the real engine with fixed label sets
 	runQuery(0, gen.Fork(7, 0), "corpus", "r = SampleOffset of a fixed series with fl(1+fl(r-1)) > r: that series is selected by neither limit_ratio(r) nor limit_ratio(r-1)")
 	runQuery(1, gen.Fork(7, 1), "corpus-both", "r = next float above the SampleOffset of a fixed series with fl(1+fl(r-1)) <= offset: selected by both")
-	nq := f.Count(220, 4000)
+	nq := f.Count(110, 3000)
 	modes := []string{"at-offset", "at-offset", "at-offset", "exact", "exact", "generic", "generic", "special"}
 	for i := 0; i < nq; i++ {
 		g := gen.Fork(f.Seed^0xC34C34, i)
